@@ -51,6 +51,18 @@ CHECKS = {
          "Every change of every document reached round-trips through raw bytes, compressed bytes and decode/encode with the same hash; every subset (<=5) of new changes bundles to byte-identical changes and loads like apply_changes; ~2.2k hand-built expanded changes (actions x scalar extremes x key/pred shapes) encode/decode/reload.",
          "Hand-built changes stay inside documented ranges.",
          "DESIGN.md §4 C18", H),
+ "C24": ("model_checking", "explicit-state BFS per text encoding; reference interpreter with independent width functions; unit-indexed view explorer",
+         "For each of the 4 encodings: all histories within budgets over a multi-unit alphabet; every distinct document agrees with the reference on text, length, element starts and per-unit marks; length == width(text), concat(spans) == text, marks() element-aligned, get(i) for every unit returns the covering element, cursors from every unit resolve to the element start; patches land on element boundaries of a unit-indexed view.",
+         "Alphabet has no lone combining marks (element-wise and whole-string grapheme counts coincide).",
+         "DESIGN.md §4 C24", H),
+ "C25": ("model_checking", "explicit-state BFS; Peritext reference from decoded ops; per-transition boundary-rule oracle",
+         "All histories within budgets over the marks/text themes: marks(), get_marks(i) for every unit, spans(), after reload and at every consistent cut (walked vs indexed via fork_at) equal the Peritext reference; every insert-only splice is checked against the expand rule derived from anchor positions.",
+         "Boundary rule asserted at boundaries with at most one mark anchor and for marks with visible extent.",
+         "DESIGN.md §4 C25", H),
+ "C26": ("model_checking", "explicit-state BFS; cursors from every index at every consistent cut resolved at every later cut vs reference RGA interpreter",
+         "For every distinct document reached, every cut H, every sequence object, every index and both move modes: creation identity, and resolution at every later cut S (walked) and at current heads (indexed) equals the reference: element index while visible; After = visible units before it; Before = nearest visible ancestor on the insertion chain or 0; string/byte forms resolve identically.",
+         "Cuts capped per document (8 quick / 24 thorough).",
+         "DESIGN.md §4 C26", H),
  "C28": ("model_checking", "explicit-state BFS for start states x exhaustive transaction sequences, byte-level differential oracle",
          "Every distinct replica document reached x every sequence of <=2 (quick) / <=3 (thorough) alphabet calls (plus a rejected call) rolled back through Transaction::rollback, transact(Err) and AutoCommit::rollback: reads, heads and save_nocompress bytes identical; the same later edit yields byte-identical change bytes.",
          "Sequences stop at the first call not enabled.",
